@@ -150,8 +150,25 @@ func Lex(text string) (toks []Token, err error) {
 	return toks, nil
 }
 
-// SyntaxOK reports whether the real parser accepts text without syntax errors.
+// SyntaxOK reports whether text is syntactically valid: neither the generated lexer nor the
+// generated parser reports an error. (The repository's own entry points listen to the parser only;
+// a character no token matches is an error of the lexer.)
 func SyntaxOK(text string) (ok bool, err error) {
+	defer guard(&err)
+	lexer := gen.NewPacketDslLexer(antlr.NewInputStream(text))
+	l := parser.NewSyntaxErrorListener()
+	lexer.RemoveErrorListeners()
+	lexer.AddErrorListener(l)
+	stream := antlr.NewCommonTokenStream(lexer, antlr.TokenDefaultChannel)
+	p := gen.NewPacketDslParser(stream)
+	p.RemoveErrorListeners()
+	p.AddErrorListener(l)
+	p.Packet()
+	return !l.HasErrors(), nil
+}
+
+// ParserOK reports whether the parser alone (the repository's own notion) accepts text.
+func ParserOK(text string) (ok bool, err error) {
 	defer guard(&err)
 	p, _, e := parser.NewPacketDslParserByContent(text)
 	if e != nil {
